@@ -4,13 +4,13 @@ CONSTANTS
   Menu <- MenuWitness
   VarMenu <- NoItems
   VarVersions <- AllVersions
-  HistMenu <- NoItems
-  HistVersions <- NoVersions
+  HistMenu <- HistAll
+  HistVersions <- WitnessVersions
   MultiMenu <- TripleQuick
   TripleMenu <- TripleQuick
   MaxItems = 1
   Sources <- WitnessVersions
   Targets <- WitnessVersions
   Emitting = FALSE
-INVARIANT NoRefusal
+INVARIANT NoSecondCallConversion
 CHECK_DEADLOCK FALSE
